@@ -33,6 +33,34 @@ Fails(e) ==
     <<"CurrentFromRecordedTorque", (~near /\ ~InDead(m, D)) =>
                       CloseS(e.cur.val, CurrentFromTorque(m, e.tq.val, D), Eps, CurrentScale(m, w, D))>> }))
 
+(* ---- growth beyond C08: dc_motor_characteristics_animation.  Every frame of the animation is read back from the figure: the   *)
+(* marker is the recorded (speed, driving torque) / (current, driving torque) of that instant, the line is the characteristic   *)
+(* at that instant's recorded duty cycle, drawn between the padded extremes.  All numbers SI.  Reported as notes.               *)
+\* anim event: m, pad, ts / tc (which panels were requested), frames = sequence of [D, w, T, I, ts = <<x1, x2, y1, y2, px, py>>, tc = same]
+CurveOfCurrent(m, I, D) == IF InDead(m, D) THEN "0"
+                           ELSE IF RSign(D) > 0 THEN RMul(RDiv(m.Tmax, RSub(m.imax, m.i0)), RSub(I, m.i0))
+                           ELSE RMul(RDiv(m.Tmax, RSub(m.imax, m.i0)), RAdd(I, m.i0))
+AnimFails(e) ==
+  IF ~e.ok THEN {"AnimationRaised_" \o e.err}
+  ELSE LET m == e.m  k == RAdd("1", e.pad) IN
+  UNION {
+    LET f == e.frames[j]  near == NearBoundary(m, f.D) IN
+    (IF ~e.ts THEN {} ELSE
+      LET p == f.ts  xe == RMul(k, m.w0) IN
+      Failing({ <<"AnimSpeedMarker", CloseS(p[5], f.w, Eps, RAbs(f.w)) /\ CloseS(p[6], f.T, Eps, RAbs(f.T))>>,
+                <<"AnimSpeedAbscissae", CloseS(p[1], RNeg(xe), Eps, xe) /\ CloseS(p[2], xe, Eps, xe)>>,
+                <<"AnimSpeedCurve", near \/ (/\ CloseS(p[3], Torque(m, RNeg(xe), f.D), Eps, TorqueScale(m, xe, f.D))
+                                               /\ CloseS(p[4], Torque(m, xe, f.D), Eps, TorqueScale(m, xe, f.D)))>> }))
+    \cup
+    (IF ~e.tc THEN {} ELSE
+      LET p == f.tc  xe == RMul(k, m.imax)  sc == RMul(RDiv(m.Tmax, RSub(m.imax, m.i0)), RAdd(xe, m.i0)) IN
+      Failing({ <<"AnimCurrentMarker", CloseS(p[5], f.I, Eps, RAbs(f.I)) /\ CloseS(p[6], f.T, Eps, RAbs(f.T))>>,
+                <<"AnimCurrentAbscissae", CloseS(p[1], RNeg(xe), Eps, xe) /\ CloseS(p[2], xe, Eps, xe)>>,
+                <<"AnimCurrentCurve", near \/ (/\ CloseS(p[3], CurveOfCurrent(m, RNeg(xe), f.D), Eps, sc)
+                                                 /\ CloseS(p[4], CurveOfCurrent(m, xe, f.D), Eps, sc))>> }))
+    : j \in 1..Len(e.frames) }
+
+AllFails(e) == IF "frames" \in DOMAIN e THEN AnimFails(e) ELSE Fails(e)
 Init == tid \in 1..Len(Traces)
-Next == tid > 0 /\ Verdict(Traces[tid].id, Fails(Traces[tid])) /\ tid' = 0
+Next == tid > 0 /\ Verdict(Traces[tid].id, AllFails(Traces[tid])) /\ tid' = 0
 =============================================================================
